@@ -129,6 +129,7 @@ func genFor(prop, tier string, seed int64, phase string) {
 		}
 		runGenerated(tier, seed)
 	case "C03":
+		runLongSweeps(tier, seed)
 		runUniform(seed, all10, "uniform")
 		runWhitespaceMix(seed, map[string]int{"quick": 400, "thorough": 6000}[tier], []int64{0, 1, 2, 3, 4, 5, 6, 7, 8, 9})
 		if q {
@@ -150,6 +151,7 @@ func genFor(prop, tier string, seed int64, phase string) {
 		} else {
 			runSweeps(tier, seed, all10, 8)
 		}
+		runLongSweeps(tier, seed)
 		runDefects(tier, seed, all10)
 		runUniform(seed, all10, "uniform")
 		runWhitespaceMix(seed, map[string]int{"quick": 300, "thorough": 4000}[tier], []int64{0, 1, 2, 3, 4, 5, 6, 7, 8, 9})
@@ -162,6 +164,12 @@ func genFor(prop, tier string, seed int64, phase string) {
 			}
 		}
 	case "C08":
+		// while the process is cold: validations under values that name no language (an id taken from a request),
+		// before any list has been used - whatever they do, the lists seen afterwards are the canonical ones
+		cold := sentence(indicesOf(newRng(seed, "c08cold").bytes(16)), 2, " ")
+		for _, l := range []int64{100, -1, 10, 1 << 31, 255} {
+			recCheck(cold, l, Event{"cls": "coldunsupported"})
+		}
 		runListCover(tier, seed)
 		runListSource()
 	case "C09":
